@@ -186,7 +186,8 @@ PROPS = {
              "the sessions) and paced data (bursts / 0-2 ms gaps / idle) for 4.3 s: every datagram exactly one well-formed message, application "
              "messages unaltered and in order, every refresh copy equal to the original template, per-template refresh counts within 1 of each "
              "other, sequence numbers following the running record count in capture order; zero refresh copies after 4 and then 8 intervals "
-             "is a violation. jsonrefresh: the same with SendJSONRecord: the peer must see exactly the application's JSON documents, in order, and "
+             "is a violation. backpressure: a TCP peer that accepts but does not read until the sender has been stuck for 300 ms, CheckConnInterval "
+             "20 ms, 600-1200 sends of 8-12 KB: every SendSet must succeed and the drained stream must be exactly the application's messages. jsonrefresh: the same with SendJSONRecord: the peer must see exactly the application's JSON documents, in order, and "
              "nothing else across two refresh ticks. peerclose: TCP exporter, CheckConnInterval 25 ms, peer closes, silent wait 1/2/4 s, the first SendSet must "
              "fail. close: CloseConnToCollector from 1..8 goroutines twice each while the application goroutine sends: returns (30 s bound), "
              "SendSet after it fails, peer stream == acknowledged sends (+ at most one failed send or a prefix of it), well-formed datagrams. "
@@ -241,7 +242,8 @@ PROPS = {
     "C13": P(True, (16, 16), 16, (1800, 7200), 1500, 500, "exploration",
              "three workloads on a real AggregationProcess under the race detector. lin (one evaluation = one short concurrent history): "
              "producers - exactly one goroutine per (flow, reporting node) stream, end times increasing in program order -, 1-2 scanners with "
-             "an export-and-reset callback, 1-2 readers (GetRecords, GetNumFlows, GetExpiry), one time-shift goroutine, over 1-3 flows "
+             "an export-and-reset callback, 1-2 readers (GetRecords, GetNumFlows, GetExpiry), 0-2 walkers (ForAllRecordsDo reading the sums and "
+             "resetting them), one time-shift goroutine, over 1-3 flows "
              "(correlated and single-stream), every ingested delta a distinct power of two; every call is recorded at the boundary (call / "
              "return timestamps from one monotonic clock) and the history, closed by quiescent reads of the final state, is checked with "
              "porcupine against a sequential model of the process (delta sums per node, readiness, retries, deadlines in virtual minutes, "
